@@ -77,8 +77,8 @@ def spec(tier, seed):
                          "rusty_basic::interpreter::write_printer::WritePrinter::println",
                          "rusty_basic::interpreter::write_printer::WritePrinter::move_to_next_print_zone"])
     cols = [0, 1, 12, 13, 14, 15, 27, 28] if tier == "quick" else list(range(0, 43))
-    for c in range(0, 43):
-        quick = c in (0, 1, 12, 13, 14, 15, 27, 28)
+    for c in range(0, 113):
+        quick = c in (0, 1, 12, 13, 14, 15, 27, 28, 69, 70, 79, 80, 83, 97)
         b.add(wp, "vk_c16_zone_from_col%d" % c, """
         let mut p = WritePrinter::new(VkSink::new());
         p.last_column = %(c)d;                      // the device is at this column (state constructed directly)
@@ -92,6 +92,32 @@ def spec(tier, seed):
         """ % {"c": c}, unwind=18, tier="quick" if quick else "thorough", cost=5,
               bounds="starting column %d" % c,
               functions=["rusty_basic::interpreter::write_printer::WritePrinter::move_to_next_print_zone"])
+    b.add(wp, "vk_c16_zone_from_any_column", """
+        let mut p = WritePrinter::new(VkSink::new());
+        let c: usize = kani::any();
+        kani::assume(c < 1000);                      // the device is at any column (long lines are not wrapped)
+        p.last_column = c;
+        let written = vk_ok!(p.move_to_next_print_zone());
+        let want = 14 - c % 14;
+        assert!(written == want && p.writer.n == want);
+        let mut k = 0usize;
+        while k < 14 { if k < want { assert!(p.writer.buf[k] == b' '); } k += 1; }
+        assert!(p.last_column == c + want && p.last_column % 14 == 0);
+        """, unwind=18, cost=200, core=False, tier="thorough", bounds="any starting column 0..999",
+          functions=["rusty_basic::interpreter::write_printer::WritePrinter::move_to_next_print_zone",
+                     "rusty_basic::interpreter::write_printer::WritePrinter::print"])
+    b.add(wp, "vk_c16_column_after_text_at_any_column", """
+        // text printed at any column advances the column by its length (no wrap-around), a line break restarts it
+        let mut p = WritePrinter::new(VkSink::new());
+        let c: usize = kani::any();
+        kani::assume(c < 100000);
+        p.last_column = c;
+        vk_ok!(p.print("xy"));
+        assert!(p.last_column == c + 2);
+        vk_ok!(p.print("a\\rb"));
+        assert!(p.last_column == 1);
+        """, unwind=8, cost=60, bounds="any starting column 0..99999",
+          functions=["rusty_basic::interpreter::write_printer::WritePrinter::print", "rusty_basic::interpreter::write_printer::WritePrinter::print_as_is"])
     b.add(wp, "vk_c16_two_devices", """
         // two devices driven alternately keep two independent columns
         let mut a = WritePrinter::new(VkSink::new());
